@@ -99,7 +99,9 @@ add("C14",
     "data kinds x NaN for all seven detectors: valid cells must run fit/predict/transform within the watchdog and give "
     "well-formed output (accepted alternatives: documented not-PD error, ValueError when the cost's minimum size exceeds the "
     "requested length); too-short or NaN data and every invalid hyper-parameter class (constructor and set_params routes) "
-    "must raise ValueError.",
+    "must raise ValueError - NaN as a hyper-parameter value included. Further facets: invalid values next to valid companions, short batches and stuck channels "
+    "through every entry point of a fitted detector, NumPy-scalar hyper-parameters, eight forms of a missing value, and finite data held in pandas' "
+    "nullable / object dtypes (must run and detect as for float64).",
     "Trusted: outcome model in checks/c14.py; regions the documentation leaves unspecified are not generated and are listed "
     "in the evidence assumptions; watchdog 12 s per cell (typical cell 10 ms).",
     "DESIGN.md section 4, C14")
